@@ -216,6 +216,7 @@ def _check_blocks(p_old, p_new, new_ir, probes, viols, rng, soft=None):
                 viols.append(
                     {
                         "sig": "block-dangling",
+                        "exc": type(e).__name__,
                         "detail": f"{type(e).__name__}: {e}",
                         "path": [list(x) for x in node_path] + [[attr, [rg.start, rg.stop]]],
                         "stmt_class": "Block",
@@ -246,6 +247,7 @@ def _check_blocks(p_old, p_new, new_ir, probes, viols, rng, soft=None):
                 viols.append(
                     {
                         "sig": "block-dangling",
+                        "exc": type(e).__name__,
                         "detail": f"{type(e).__name__}: {e}",
                         "path": [list(x) for x in node_path] + [[attr, [rg.start, rg.stop]]],
                         "stmt_class": "Block",
